@@ -17,6 +17,11 @@ type Clause struct {
 	Where string // file:line
 }
 
+type PointClause struct {
+	Assume bool
+	Clause
+}
+
 type LoopSpec struct {
 	Invariants []Clause
 	Decreases  *Clause
@@ -31,10 +36,12 @@ type Contract struct {
 	Lets     []Clause // Label = name
 	Requires []Clause
 	Ensures  []Clause
+	ProgEns  []Clause // progress assumptions: available to termination (dec) obligations only
 	GhostEns []Clause // ghost definitions: assumed at call sites and at the function's own returns, never checked
 	Modifies []Clause
 	Loops    map[int]*LoopSpec
 	Closures map[int]*Contract // contracts of function literals (ordinal within the function)
+	Points   map[int][]PointClause // in-body assume/assert at verifPoint(k) marker calls
 	Trusted  bool              // assumed, body not verified
 	Inline   bool
 	Flags    map[string]string
@@ -94,7 +101,7 @@ func newContractSet() *ContractSet {
 
 var clauseKeywords = map[string]bool{
 	"requires": true, "ensures": true, "modifies": true, "loop": true, "trusted": true, "let": true,
-	"inline": true, "flag": true, "cover": true, "closure": true, "returns": true, "ghost_ensures": true,
+	"inline": true, "flag": true, "cover": true, "closure": true, "returns": true, "ghost_ensures": true, "point": true, "progress_ensures": true,
 }
 
 // parseContractFile reads //@ lines. pkgPath is the package owning the file ("" = external spec file).
@@ -241,6 +248,24 @@ func (cs *ContractSet) parseContractFile(path, pkgPath string) {
 				target.Ensures = append(target.Ensures, mk(rest))
 			case "ghost_ensures":
 				target.GhostEns = append(target.GhostEns, mk(rest))
+			case "progress_ensures":
+				target.ProgEns = append(target.ProgEns, mk(rest))
+			case "point":
+				f := strings.Fields(rest)
+				if len(f) < 3 || (f[1] != "assume" && f[1] != "assert") {
+					errf(l.no, "bad point clause (point <k> assume|assert <expr>)")
+					continue
+				}
+				k, err := strconv.Atoi(f[0])
+				if err != nil {
+					errf(l.no, "point ordinal")
+					continue
+				}
+				body := strings.TrimSpace(strings.TrimPrefix(strings.TrimSpace(strings.TrimPrefix(rest, f[0])), f[1]))
+				if target.Points == nil {
+					target.Points = map[int][]PointClause{}
+				}
+				target.Points[k] = append(target.Points[k], PointClause{f[1] == "assume", mk(body)})
 			case "cover":
 				target.Covers = append(target.Covers, mk(rest))
 			case "modifies":
